@@ -592,12 +592,28 @@ def run_probe(pr):
             yield num(pr['adv'])
             snap('at_resched', clock)
             sop = pr['sop']
+            other = SystemClock if target is not SystemClock else (clocks[0] if clocks else SystemClock)
             if sop == 'reset':
                 vr2.reset()
             elif sop == 'stop':
                 vr2.stop()
+            elif sop == 'noop_play':
+                # documented no-ops on a routine that is already playing (Suspended, waiting on its clock): its timeline stays untouched
+                vr2.play()
+                vr2.play(other, 0)
+                vr2.play(target, 0)
+                vr2.resume()
+                vr2.resume(other, 0)
+            elif sop == 'stop_then_noops':
+                vr2.stop()
+                vr2.play()                 # Done: play / resume / pause do nothing, it never runs again
+                vr2.resume()
+                vr2.pause()
+                vr2.play(other, 0)
             else:
                 vr2.pause()
+                if sop == 'pause_noops_resume':
+                    vr2.pause()            # Paused: pausing again changes nothing
                 yield num(pr['adv2'])
                 snap('at_resume', clock)
                 obs['target_beats_at_resume'] = fr(target.beats)
